@@ -784,12 +784,14 @@ struct Digit {
                     if (m_shift < positive_exp) {
                         b_int <<= (positive_exp - m_shift);
                     } else {
+                        // Sticky only if non-zero bits are shifted out.
+                        round_up = ((m_shift - positive_exp) > first_shift);
                         b_int >>= (m_shift - positive_exp);
                     }
 
                     if (drop != 0) {
-                        round_up = true;
-                        bigIntDropDigits(b_int, drop);
+                        // Sticky only if a remainder is dropped.
+                        round_up = (bigIntDropDigits(b_int, drop) || round_up);
                     }
                 } else {
                     SizeT32 shift   = 0;
@@ -944,17 +946,20 @@ struct Digit {
     }
 
     template <typename BigInt_T>
-    inline static void bigIntDropDigits(BigInt_T &b_int, SizeT32 drop) noexcept {
+    inline static bool bigIntDropDigits(BigInt_T &b_int, SizeT32 drop) noexcept {
         using DigitConst = DigitUtils::DigitConst<BigInt_T::SizeOfType()>;
+        bool inexact     = false;
 
         while (drop >= DigitConst::MaxPowerOfFive) {
-            b_int /= DigitConst::GetPowerOfFive(DigitConst::MaxPowerOfFive);
+            inexact = ((b_int.Divide(DigitConst::GetPowerOfFive(DigitConst::MaxPowerOfFive)) != 0) || inexact);
             drop -= DigitConst::MaxPowerOfFive;
         }
 
         if (drop != 0) {
-            b_int /= DigitConst::GetPowerOfFive(drop);
+            inexact = ((b_int.Divide(DigitConst::GetPowerOfFive(drop)) != 0) || inexact);
         }
+
+        return inexact;
     }
 
     template <typename Stream_T>
@@ -972,7 +977,8 @@ struct Digit {
             --index;
             index += SizeT(number_length - precision);
 
-            roundStringNumber(stream, index, power_increased, round_up);
+            roundStringNumber(stream, index, power_increased,
+                              (round_up || hasNonZeroDigit(storage, started_at, index)));
 
             if (is_positive_exp) {
                 const SizeT diff =
@@ -1071,7 +1077,8 @@ struct Digit {
             if (diff <= precision) {
                 if (fraction_length > precision) {
                     index += SizeT(fraction_length - (precision + SizeT{1}));
-                    roundStringNumber(stream, index, power_increased, (round_up | (diff != 0)));
+                    roundStringNumber(stream, index, power_increased,
+                                      (round_up || hasNonZeroDigit(storage, started_at, index)));
 
                     Char_T       *number = (storage + index);
                     const Char_T *last   = stream.Last();
@@ -1142,6 +1149,20 @@ struct Digit {
                 insertZerosLarge(stream, SizeT32(precision - (dot_index - index)));
             }
         }
+    }
+
+    // True if any of the (reversed) digits below the rounding digit is not zero.
+    template <typename Char_T>
+    static bool hasNonZeroDigit(const Char_T *storage, SizeT index, const SizeT end) noexcept {
+        while (index < end) {
+            if (storage[index] != DigitUtils::DigitChar::Zero) {
+                return true;
+            }
+
+            ++index;
+        }
+
+        return false;
     }
 
     template <typename Stream_T>
